@@ -342,6 +342,14 @@ func runGroup(t *testing.T, tr *vh.Trace, tid string, rows []Row, cached bool, n
 
 		exec(rows, tid)
 
+		// once more in the opposite order through the same handle: what a call is allowed to do never depends on the calls made
+		// before it (an option of an earlier call must not stick)
+		if next == nil {
+			rev := slices.Clone(rows)
+			slices.Reverse(rev)
+			exec(rev, tid+"-again")
+		}
+
 		if next != nil {
 			if uerr := h.(interface {
 				UpdateInputs([]controller.Input) error
